@@ -12,9 +12,16 @@ Decides from the syntax tree / CFG of hailtop/utils/rate_limiter.py (nothing is 
   R3 eviction   between the clock read and the admission test the loop pops from the *left* while the deque is non-empty and
                 head <= now - window (linear form head - now + window <= 0, non-strict: an entry exactly one window old is outside
                 the half-open window), measured with the clock the entries were recorded with; the deque is only appended on the
-                right / read at [0] / popleft'ed, and popleft only happens as the body of that loop
-  R4 waiting    the only suspension is `asyncio.sleep(head - (now - window))` (linear form head - now + window: the time until the
-                head leaves the window), reached only by refused entries, and after it the clock is re-read before anything is admitted
+                right / read at [0] / popleft'ed, and popleft only happens as the body of such a loop (never unconditionally, e.g. by a
+                waiter after its sleep: the head it finds then need not be the entry it waited for).  The position rule is stated for
+                the LAST clock read, so several reads / several (inlined) copies of the loop are fine: from the entry and from every
+                suspension point the admission test is only reached through a clock read, and from every clock read only through an
+                eviction loop
+  R4 waiting    the only wait is `asyncio.sleep(head - (now - window))` (linear form head - now + window: the time until the head
+                leaves the window), reached only by refused entries; the sleep STARTS at the clock read (no other suspension point -
+                queueing on a lock / semaphore that another waiter holds across its sleep - between reading `now` and sleeping, else
+                the amount is stale by the time spent queueing and the waiter oversleeps); after every suspension the clock is re-read
+                before anything is admitted
   R5 parameters `_count` / `_window_seconds` come from RateLimit.count / .window_seconds and are never reassigned
 Does not decide: clock behaviour (monotonicity of time.time), fairness among waiters.
 """
@@ -341,7 +348,8 @@ def run(ctx: Ctx) -> None:
     ctx.rule('R1', 'every append only through an edge taken exactly when len(items) < count, atomically; every return passes one append', 3)
     ctx.rule('R2', 'every recorded timestamp is the clock value read with no await before the append, and nothing suspends between append and return', 3)
     ctx.rule('R3', 'eviction pops the left end while non-empty and head <= now - window (same clock), between clock read and admission test; deque discipline', 11)
-    ctx.rule('R4', 'the only suspension is sleep(head - (now - window)), only for refused entries, and the clock is re-read afterwards', 3)
+    ctx.rule('R4', 'the only wait is sleep(head - (now - window)), started at the clock read (no other suspension in between), only for refused entries, '
+                   'and the clock is re-read after every suspension', 4)
     ctx.rule('R5', 'count / window come from the RateLimit and are not reassigned', 4)
     ctx.assume('asyncio runs one coroutine at a time and switches only at await; the clock does not go backwards')
     m0 = pf.load(F)
@@ -475,13 +483,14 @@ def _after_def_before_use(cfg: pf.CFG, D: pf.Node, U: pf.Node) -> List[pf.Node]:
     return [n for n in cfg.nodes if n.id in fwd and n.id in bwd]
 
 
-def _time_norm(m: pf.Module, cls: ast.ClassDef, fn: pf.FuncDef, cfg: pf.CFG, e: ast.AST, now: str, N: pf.Node, U: pf.Node, depth: int = 4) -> ast.AST:
+def _time_norm(m: pf.Module, cls: ast.ClassDef, fn: pf.FuncDef, cfg: pf.CFG, e: ast.AST, now: str, N, U: pf.Node, depth: int = 4) -> ast.AST:
     """`e` (evaluated at CFG node U) rewritten over the atoms head / now / window: module-level and class-level numeric constants are
     replaced by their value; a local other than the clock local is replaced by its defining expression when that is its only definition,
-    the definition is (re)computed after the clock read N on every path from N to U (so it speaks about the same `now`), and - if it reads
+    the definition is (re)computed after the clock read(s) N on every path from a clock read to U (so it speaks about the same `now`), and - if it reads
     the deque - nothing pops or appends between the definition and U.  Anything else is left in place (the caller's linear form then
     declines)."""
     import copy
+    reads: List[pf.Node] = list(N) if isinstance(N, (list, tuple)) else [N]
 
     class _S(ast.NodeTransformer):
         def __init__(self, d: int, at: pf.Node):
@@ -517,7 +526,7 @@ def _time_norm(m: pf.Module, cls: ast.ClassDef, fn: pf.FuncDef, cfg: pf.CFG, e: 
                 return node
             if D is self.at or not cfg.dominated_by(self.at, lambda n: n is D):
                 return node
-            if cfg.path_avoiding(N, lambda n: n is self.at, lambda n: n is D) is not None:
+            if any(cfg.path_avoiding(N1, lambda n: n is self.at, lambda n: n is D) is not None for N1 in reads):
                 return node  # some path from the clock read to the use does not recompute the local: it can speak about an older `now`
             if af.mentions(dd, ITEMS) and any(any(isinstance(c.func, ast.Attribute) and pf.nsrc(c.func.value) == ITEMS for c in pf.node_calls(x))
                                                for x in _after_def_before_use(cfg, D, self.at)):
@@ -548,29 +557,34 @@ def _window(ctx: Ctx, m: pf.Module, cls: ast.ClassDef, fn: pf.FuncDef, cfg: pf.C
     ctx.need(len(nows) == 1, f'{q}: entries are recorded from different clock locals {nows} (R3/R4 are written for one)')
     now = nows[0]
     clock = clocks[0] if len(clocks) == 1 else None
+    # every definition of the clock local is a plain clock read (that is what makes it a clock local); there may be several of them
+    # (`now = time.time()` before a waiting loop and again after the sleep): the position rules are stated for "the last read"
     Ns = _def_nodes(cfg, now)
-    ctx.need(len(Ns) == 1, f'{q}: `{now}` is read from the clock at {len(Ns)} places (R3/R4 position rules are written for one read per iteration)')
-    N = Ns[0]
+    ctx.need(len(Ns) >= 1, f'{q}: no definition of `{now}` on the CFG')
+    ctx.unit('clock_reads', len(Ns))
+
+    def isN(n: pf.Node) -> bool:
+        return any(n is x for x in Ns)
     apps = [r.node for r in recs]
     guards: List[Tuple[pf.Node, str]] = []
     for r in recs:
         if r.guard is not None and not any(r.guard[0] is g[0] and r.guard[1] == g[1] for g in guards):
             guards.append(r.guard)
+    susp = af.stmt_nodes(cfg, pf.node_has_await)
 
-    # ---- R3 eviction loop ---------------------------------------------------------------
+    # ---- R3 eviction loop(s) ------------------------------------------------------------
     loops = [n for n in pf.walk_shallow(fn) if isinstance(n, ast.While) and af.mentions(n.test, f'{ITEMS}[0]')]
     consE = f'{F}::{q}::eviction loop'
     pops = [u for u in uses if u.kind == 'method:popleft']
-    lp: Optional[ast.While] = None
+    Es: List[pf.Node] = []
     if not loops:
         ctx.need(not pops, f'{q}: popleft outside a recognised eviction loop')
         ctx.bad('R3', consE, 'entries are never evicted: once `count` entries were admitted nobody is admitted again / the sleep amount is computed from a '
                 'stale head', m.path, fn.lineno)
         af.blocked(ctx, 'R3', 'R3')
-    else:
-        ctx.need(len(loops) == 1, f'{q}: {len(loops)} loops test the head of the deque')
-        lp = loops[0]
+    for lp in loops:
         E = af.test_node(cfg, lp.test)
+        Es.append(E)
         # shape of the test:  nonempty and <compare>
         conj = lp.test.values if isinstance(lp.test, ast.BoolOp) and isinstance(lp.test.op, ast.And) else [lp.test]
         cmps = [c for c in conj if isinstance(c, ast.Compare) and af.mentions(c, f'{ITEMS}[0]')]
@@ -584,7 +598,7 @@ def _window(ctx: Ctx, m: pf.Module, cls: ast.ClassDef, fn: pf.FuncDef, cfg: pf.C
                   'IndexError once every entry has left the window', m.path, lp.lineno)
         if rest:
             ctx.need(conj.index(rest[0]) < conj.index(cmps[0]), f'{q}: the emptiness test does not precede the head comparison')
-        cmpN = _time_norm(m, cls, fn, cfg, cmps[0], now, N, E)
+        cmpN = _time_norm(m, cls, fn, cfg, cmps[0], now, Ns, E)
         ctx.need(isinstance(cmpN, ast.Compare), f'{q}: eviction comparison not recognised')
         oc = _other_clock(fn, cmps[0], clock, now) or _other_clock(fn, cmpN, clock, now)
         if oc is not None:
@@ -616,19 +630,25 @@ def _window(ctx: Ctx, m: pf.Module, cls: ast.ClassDef, fn: pf.FuncDef, cfg: pf.C
         body_ok = len(lp.body) == 1 and isinstance(lp.body[0], ast.Expr) and pf.call_name(lp.body[0].value) == f'{ITEMS}.popleft' and not lp.orelse
         ctx.check(body_ok, 'R3', consE + '::body', f'the eviction loop body is `{"; ".join(pf.nsrc(s) for s in lp.body)}`, not a single `{ITEMS}.popleft()`',
                   m.path, lp.lineno)
-        # placed between the clock read and the admission test, on every path
+    if loops:
+        # Position, stated for "the last clock read" so that it does not depend on how many reads / copies of the eviction loop there are:
+        # every way of reaching the admission test - from the entry or from a suspension point - reads the clock, and every way of reaching
+        # it from a clock read runs an eviction loop (which then uses that read); nothing suspends in between.
+        def isE(n: pf.Node) -> bool:
+            return any(n is x for x in Es)
         if guards:
             for T, _ in guards:
-                p1 = cfg.dominated_by(E, lambda n: n is N)
-                p2 = af.must_pass(cfg, N, lambda n, T=T: n is T, lambda n: n is E) is None
-                stale2 = [x for x in af.between(cfg, E, T) if pf.node_has_await(x) or x is N]
-                ctx.check(p1 and p2 and not stale2, 'R3', consE + '::position',
+                stale_now = [s for s in [cfg.entry] + susp if cfg.path_avoiding(s, lambda n, T=T: n is T, isN) is not None]
+                unevicted = [s for s in [cfg.entry] + susp + Ns if cfg.path_avoiding(s, lambda n, T=T: n is T, isE) is not None]
+                ctx.check(not stale_now and not unevicted, 'R3', consE + '::position',
                           'the eviction loop is not run, with the current clock value, on every path between the clock read and the admission test: '
-                          'entries that already left the window are still counted (late admission) or the test uses an outdated deque', m.path, lp.lineno)
+                          'entries that already left the window are still counted (late admission) or the test uses an outdated deque'
+                          + (f' (after `{(stale_now + unevicted)[0].text()}`)' if (stale_now + unevicted) and (stale_now + unevicted)[0] is not cfg.entry else ''),
+                          m.path, loops[0].lineno)
         else:
             af.blocked(ctx, 'R1', 'R3')
-    # every popleft is the body of that loop: nothing else may forget an entry
-    in_loop = {id(x) for x in ast.walk(lp)} if lp is not None else set()
+    # every popleft is the body of such a loop: nothing else may forget an entry
+    in_loop = {id(x) for lp in loops for x in ast.walk(lp)}
     for u in pops:
         if id(u.node) in in_loop:
             continue
@@ -636,29 +656,54 @@ def _window(ctx: Ctx, m: pf.Module, cls: ast.ClassDef, fn: pf.FuncDef, cfg: pf.C
         ufn = m.enclosing_func(u.node)
         ucfg = pf.cfg(ufn) if ufn is not None else None
         tested = False
+        after_susp: Optional[pf.Node] = None
         if ucfg is not None:
             for P in ucfg.node_of(u.node):
                 if any(t.kind == 'test' and af.mentions(t.ast, f'{ITEMS}[0]') and af.every_path_uses_edge(ucfg, P, t, 'T') for t in ucfg.nodes):
                     tested = True
+                for x in ucfg.nodes:
+                    if after_susp is None and pf.node_has_await(x) and x is not P and af.direct(ucfg, x, P):
+                        after_susp = x
         ctx.need(not tested, f'{cons}: a second eviction site guarded by a test on the head (not analysed)')
+        if after_susp is not None:
+            example = (f'the head at the time the task resumes from `{after_susp.text()}` need not be the entry it was looking at before: two waiters parked on the same '
+                       f'oldest entry both resume when it expires, the first evicts it and is admitted, the second drops the NEXT entry, which is still inside the window '
+                       f'(count=1, window=10, arrivals 0,1,2: admissions 0,10,10 - two in [10, 20); count=2, arrivals 0,1,2,2: 0,1,10,10 - three in [1, 11))')
+        else:
+            example = ('count=1, window=10: entry at t=0, its slot is handed back at t=1, an arrival at t=2 is admitted: 2 admissions in [0, 10)')
         ctx.bad('R3', cons, f'`{u.detail}` in {u.func} drops the oldest entry without testing that it is at least one window old: an admission that did happen is '
-                f'forgotten while it is still inside the window and another caller is let in (count=1, window=10: entry at t=0, its slot is handed back at t=1, '
-                f'an arrival at t=2 is admitted: 2 admissions in [0, 10))', m.path, getattr(u.node, 'lineno', 0))
+                f'forgotten while it is still inside the window and another caller is let in ({example})', m.path, getattr(u.node, 'lineno', 0))
 
-    # ---- R4 the sleep -------------------------------------------------------------------
-    aws = af.stmt_nodes(cfg, pf.node_has_await)
+    # ---- R4 the suspension points -------------------------------------------------------
     consS = f'{F}::{q}::sleep'
-    if not aws:
-        ctx.bad('R4', consS, 'a refused entry never suspends: __aenter__ spins on the clock and blocks the event loop', m.path, fn.lineno)
+    sleeps: List[Tuple[pf.Node, ast.AST]] = []
+    blockers: Dict[int, str] = {}
+    for S in susp:
+        kind, payload = _suspension(ctx, m, cls, fn, cfg, q, S)
+        if kind == 'sleep':
+            sleeps.append((S, payload))  # type: ignore[arg-type]
+        else:
+            blockers[S.id] = payload  # type: ignore[assignment]
+    if not sleeps:
+        ctx.bad('R4', consS, 'a refused entry never sleeps until the oldest entry leaves the window: __aenter__ spins on the clock and blocks the event loop', m.path, fn.lineno)
         af.blocked(ctx, 'R4', 'R4')
-    for S in aws:
-        calls = [a for a in ast.walk(S.ast) if isinstance(a, ast.Await)]
-        ctx.need(len(calls) == 1 and S.kind == 'stmt' and isinstance(S.ast, ast.Expr), f'{q}: unrecognised suspension `{S.text()}`')
-        c = calls[0].value
-        ctx.need(isinstance(c, ast.Call) and pf.dotted(c.func) == 'asyncio.sleep' and len(c.args) == 1 and not c.keywords,
-                 f'{q}: suspension `{S.text()}` is not asyncio.sleep(x)')
-        amount = _time_norm(m, cls, fn, cfg, c.args[0], now, N, S)  # type: ignore[union-attr]
-        oc = _other_clock(fn, pf.resolve_expr(fn, c.args[0]), clock, now) or _other_clock(fn, amount, clock, now)  # type: ignore[union-attr]
+    many = len(sleeps) > 1
+    for S, arg in sleeps:
+        consS = f'{F}::{q}::sleep' + (f' `{pf.nsrc(S.ast)}`' if many else '')
+        # the amount is a time difference against the clock value `now`: it is the right amount only if the sleep starts when `now` was read
+        mid = [x for x in _after_reads_before(cfg, Ns, S) if pf.node_has_await(x)]
+        if mid:
+            X = mid[0]
+            how = blockers.get(X.id, 'a suspension point')
+            ctx.bad('R4', consS + '::starts at the clock read',
+                    f'`{X.text()}` ({how}) can suspend between the clock read `{now} = {clock or "clock"}()` and `{S.text()}`: the amount is the time until the oldest entry '
+                    f'leaves the window counted from the clock read, but the sleep only starts when that suspension ends, so the waiter wakes later than head + window by the '
+                    f'time it spent suspended - not admitted as soon as possible (count=2, window=10, arrivals 0,1,2,2: the second waiter computes 8 s at t=2, is resumed at '
+                    f't=10 when the first waiter\'s sleep ends and sleeps until 18, although the entry of t=1 left the window at 11)', m.path, S.lineno)
+        else:
+            ctx.ok('R4', consS + '::starts at the clock read', 'no suspension point between the clock read and the sleep')
+        amount = _time_norm(m, cls, fn, cfg, arg, now, Ns, S)
+        oc = _other_clock(fn, pf.resolve_expr(fn, arg), clock, now) or _other_clock(fn, amount, clock, now)
         if oc is not None:
             ctx.bad('R4', consS + '::clock', f'the sleep amount `{pf.nsrc(amount)}` is computed with `{oc}` while the entries are recorded with {clock}(): '
                     'the difference of two clocks is not the time until the oldest entry leaves the window', m.path, S.lineno)
@@ -668,13 +713,94 @@ def _window(ctx: Ctx, m: pf.Module, cls: ast.ClassDef, fn: pf.FuncDef, cfg: pf.C
             ctx.check(lin == WANT, 'R4', consS + f'::amount `{pf.nsrc(amount)}`',
                       f'sleeps {af.lin_str(lin)} seconds; the time until the oldest entry leaves the window is head - now + W '  # type: ignore[arg-type]
                       '(longer: not admitted as soon as possible; shorter: busy re-testing)', m.path, S.lineno)
-        # reached only when refused, and the clock is re-read before any admission
+        # reached only when refused
         if guards:
             def not_refusing(a: pf.Node, b: pf.Node, lab: str) -> bool:
                 return not any(a is T and lab in ('T', 'F') and lab != gl for T, gl in guards)
-            free = cfg.path_avoiding(cfg.entry, lambda n: n is S, lambda n: False, edge_ok=not_refusing)
+            free = cfg.path_avoiding(cfg.entry, lambda n, S=S: n is S, lambda n: False, edge_ok=not_refusing)
             ctx.check(free is None, 'R4', consS + '::only when refused', 'the sleep is also executed by entries that were not refused by the admission test',
                       m.path, S.lineno)
-        back = af.must_pass(cfg, S, lambda n: any(n is a for a in apps) or n is cfg.exit, lambda n: n is N)
-        ctx.check(back is None, 'R4', consS + '::re-evaluates', 'after sleeping an entry is admitted / returns without re-reading the clock and re-counting the window',
+    # after any suspension the clock is re-read before anything is admitted
+    for S in susp:
+        consS = f'{F}::{q}::sleep' + (f' `{pf.nsrc(S.ast)}`' if many else '') if S.id not in blockers else f'{F}::{q}::{S.text()}'
+        back = af.must_pass(cfg, S, lambda n: any(n is a for a in apps) or n is cfg.exit, isN)
+        ctx.check(back is None, 'R4', consS + '::re-evaluates', 'after suspending an entry is admitted / returns without re-reading the clock and re-counting the window',
                   m.path, S.lineno)
+
+
+def _after_reads_before(cfg: pf.CFG, Ns: List[pf.Node], S: pf.Node) -> List[pf.Node]:
+    """Nodes that can execute after a clock read and before S without another clock read (or S itself) in between."""
+    def stop(n: pf.Node) -> bool:
+        return n is S or any(n is x for x in Ns)
+    fwd: Set[int] = set()
+    stack = [x for N in Ns for x, _ in N.succ]
+    while stack:
+        n = stack.pop()
+        if n.id in fwd or stop(n):
+            continue
+        fwd.add(n.id)
+        stack.extend(x for x, _ in n.succ)
+    bwd: Set[int] = set()
+    stack = [x for x, _ in S.pred]
+    while stack:
+        n = stack.pop()
+        if n.id in bwd or stop(n):
+            continue
+        bwd.add(n.id)
+        stack.extend(x for x, _ in n.pred)
+    return [n for n in cfg.nodes if n.id in fwd and n.id in bwd]
+
+
+LOCKS = {'asyncio.Lock': 'an asyncio.Lock', 'asyncio.Semaphore': 'an asyncio.Semaphore', 'asyncio.BoundedSemaphore': 'an asyncio.BoundedSemaphore',
+         'asyncio.Condition': 'an asyncio.Condition'}
+
+
+def _attr_ctor(m: pf.Module, cls: ast.ClassDef, attr: str) -> Optional[str]:
+    """Dotted name of the constructor `self.<attr>` is bound to, when it is bound exactly once, in __init__, by a call."""
+    stores = [n for n in ast.walk(cls) if isinstance(n, ast.Attribute) and n.attr == attr and isinstance(n.ctx, (ast.Store, ast.Del))
+              and isinstance(n.value, ast.Name) and n.value.id == 'self']
+    if len(stores) != 1:
+        return None
+    st = m.parents().get(stores[0])
+    f = m.enclosing_func(stores[0])
+    if isinstance(st, (ast.Assign, ast.AnnAssign)) and f is not None and f.name == '__init__' and isinstance(st.value, ast.Call):
+        d = pf.dotted(st.value.func)
+        if d is not None and d.split('.')[-1] in ('Lock', 'Semaphore', 'BoundedSemaphore', 'Condition') and not d.startswith('asyncio.'):
+            imp = m.imports().get(d.split('.')[0], '')
+            if imp.startswith('asyncio'):
+                return 'asyncio.' + d.split('.')[-1]
+        return d
+    return None
+
+
+def _suspension(ctx: Ctx, m: pf.Module, cls: ast.ClassDef, fn: pf.FuncDef, cfg: pf.CFG, q: str, S: pf.Node) -> Tuple[str, object]:
+    """Classify a suspension point of __aenter__:
+         ('sleep', amount expression)   `await asyncio.sleep(x)` as a statement
+         ('block', description)         acquiring an asyncio lock / semaphore / condition of this object that some task holds across a
+                                        suspension: the acquisition waits for that task, for as long as its suspension lasts
+       anything else is not analysed."""
+    a = S.ast
+    if S.kind == 'stmt' and isinstance(a, ast.Expr) and isinstance(a.value, ast.Await):
+        c = a.value.value
+        if isinstance(c, ast.Call) and pf.dotted(c.func) == 'asyncio.sleep' and len(c.args) == 1 and not c.keywords:
+            return 'sleep', c.args[0]
+        if isinstance(c, ast.Call) and isinstance(c.func, ast.Attribute) and c.func.attr == 'acquire' and not c.args and not c.keywords \
+                and isinstance(c.func.value, ast.Attribute) and isinstance(c.func.value.value, ast.Name) and c.func.value.value.id == 'self':
+            attr = c.func.value.attr
+            ctor = _attr_ctor(m, cls, attr)
+            ctx.need(ctor in LOCKS, f'{q}: suspension `{S.text()}`: self.{attr} is not an asyncio lock / semaphore created once in __init__')
+            rel = f'self.{attr}.release'
+            held = cfg.path_avoiding(S, lambda n: n is not S and pf.node_has_await(n), lambda n: af.node_is_call(n, rel) is not None)
+            ctx.need(held is not None, f'{q}: `{S.text()}`: the lock is never held across a suspension (acquiring it does not wait; not analysed)')
+            return 'block', f'acquiring {LOCKS[ctor]} that another entrant holds while it is suspended in `{held[-1].text()}`'  # type: ignore[index]
+    if S.kind == 'with' and isinstance(a, ast.AsyncWith) and len(a.items) == 1 and a.items[0].optional_vars is None:
+        e = a.items[0].context_expr
+        if isinstance(e, ast.Attribute) and isinstance(e.value, ast.Name) and e.value.id == 'self':
+            ctor = _attr_ctor(m, cls, e.attr)
+            ctx.need(ctor in LOCKS, f'{q}: suspension `{S.text()}`: self.{e.attr} is not an asyncio lock / semaphore created once in __init__')
+            holders = [w for w in ast.walk(cls) if isinstance(w, ast.AsyncWith) and any(pf.nsrc(i.context_expr) == pf.nsrc(e) for i in w.items)
+                       and any(isinstance(x, (ast.Await, ast.AsyncWith, ast.AsyncFor)) for b in w.body for x in ast.walk(b))]
+            ctx.need(holders, f'{q}: `{S.text()}`: the lock is never held across a suspension (acquiring it does not wait; not analysed)')
+            inner = next(x for b in holders[0].body for x in ast.walk(b) if isinstance(x, (ast.Await, ast.AsyncWith, ast.AsyncFor)))
+            return 'block', f'acquiring {LOCKS[ctor]} that another entrant holds while it is suspended in `{pf.nsrc(inner)[:60]}`'
+    raise AnalysisError(f'{q}: unrecognised suspension `{S.text()}`')
